@@ -1,9 +1,45 @@
 #!/bin/sh
-# usage: tools/commit.sh "message"  — commit /verif only when every Lean target builds (another builder may be mid-edit)
-here="$(cd "$(dirname "$0")/.." && pwd)"; cd "$here/lean"
-if lake build >/tmp/commit-build.log 2>&1; then
-  cd "$here"; git add -A; git commit -qm "$1"; echo "committed: $1"
-else
-  echo "NOT committed: lake build fails:"; grep "^error" /tmp/commit-build.log | head -5
-  exit 1
+# usage: tools/commit.sh "message" — commit /verif; when a Lean target does not build (a builder is mid-edit),
+# the files of THAT property's owner are left out of the commit (their last committed versions build together).
+here="$(cd "$(dirname "$0")/.." && pwd)"; cd "$here"
+owner_files() {
+  case "$1" in
+    C03) echo "lean/PdProps/C03.lean lean/PdModel/Builder.lean lean/PdModel/BuilderIO.lean lean/PdModel/PySem.lean lean/PdModel/Subset.lean harness/props/c03.py notes/C03.md notes/claims/C03.json";;
+    C04) echo "lean/PdProps/C04.lean lean/PdProps/C04Base.lean lean/PdProps/C04Clean.lean lean/PdProps/C04Inh.lean lean/PdModel/Imports.lean lean/PdModel/ImportsIO.lean lean/PdModel/PyImp.lean harness/props/c04.py harness/gen/bindings.py notes/C04.md notes/claims/C04.json";;
+    C05) echo "lean/PdProps/C05.lean lean/PdModel/Mro.lean lean/PdModel/MroIO.lean lean/PdModel/PyMro.lean harness/props/c05.py notes/C05.md notes/claims/C05.json corpus/C05";;
+    C08) echo "lean/PdProps/C08.lean lean/PdModel/Docstring.lean lean/PdModel/DocstringIO.lean harness/props/c08.py notes/C08.md notes/claims/C08.json";;
+    C09) echo "lean/PdProps/C09.lean lean/PdModel/Epytext.lean lean/PdModel/EpytextIO.lean lean/PdModel/Doctest.lean lean/PdModel/Fields.lean harness/props/c09.py notes/C09.md notes/claims/C09.json";;
+    C10) echo "lean/PdProps/C10.lean lean/PdModel/Escape.lean lean/PdModel/EscapeIO.lean harness/props/c10.py notes/C10.md notes/claims/C10.json";;
+    C11|C12) echo "lean/PdProps/C11.lean lean/PdProps/C12.lean lean/PdModel/Output.lean lean/PdModel/OutputIO.lean harness/props/c11.py harness/props/c12.py harness/outputcrawl.py notes/C11.md notes/C12.md notes/claims/C11.json notes/claims/C12.json";;
+    C13) echo "lean/PdProps/C13.lean lean/PdModel/Glob.lean lean/PdModel/GlobIO.lean lean/PdModel/Regex.lean lean/PdModel/Privacy.lean harness/props/c13.py notes/C13.md notes/claims/C13.json";;
+    C14) echo "lean/PdProps/C14.lean lean/PdModel/Signature.lean lean/PdModel/SignatureIO.lean harness/props/c14.py notes/C14.md notes/claims/C14.json";;
+    C15) echo "lean/PdProps/C15.lean lean/PdModel/Pyval.lean lean/PdModel/PyvalIO.lean harness/props/c15.py notes/C15.md notes/claims/C15.json";;
+    C16) echo "lean/PdProps/C16.lean lean/PdModel/Lineno.lean lean/PdModel/LinenoIO.lean harness/props/c16.py notes/C16.md notes/claims/C16.json";;
+    C17) echo "lean/PdProps/C17.lean lean/PdModel/Inventory.lean lean/PdModel/InventoryIO.lean harness/props/c17.py notes/C17.md notes/claims/C17.json";;
+    C18) echo "lean/PdProps/C18.lean lean/PdModel/Determinism.lean lean/PdModel/DeterminismIO.lean harness/props/c18.py harness/sitescan.py harness/c18_sites.json harness/impl/launch_shuffled.py notes/C18.md notes/claims/C18.json";;
+    C20) echo "lean/PdProps/C20.lean lean/PdModel/Config.lean lean/PdModel/ConfigIO.lean harness/props/c20.py notes/C20.md notes/claims/C20.json";;
+  esac
+}
+owner_of() {
+  case "$1" in
+    *C03*|*Builder*|*PySem*|*Subset*) echo C03;; *C04*|*Imports*|*PyImp*) echo C04;; *C05*|*Mro*) echo C05;;
+    *C08*|*Docstring*) echo C08;; *C09*|*Epytext*|*Doctest*|*Fields*) echo C09;; *C10*|*Escape*) echo C10;;
+    *C11*|*C12*|*Output*) echo C11;; *C13*|*Glob*|*Regex*|*Privacy*) echo C13;; *C14*|*Signature*) echo C14;;
+    *C15*|*Pyval*) echo C15;; *C16*|*Lineno*) echo C16;; *C17*|*Inventory*) echo C17;; *C18*|*Determinism*) echo C18;;
+    *C20*|*Config*) echo C20;;
+  esac
+}
+(cd lean && lake build >/tmp/commit-build.log 2>&1)
+git add -A
+if grep -q "^error" /tmp/commit-build.log; then
+  owners=""
+  for f in $(grep -o "error: \(PdModel\|PdProps\)/[A-Za-z0-9]*\.lean" /tmp/commit-build.log | sed 's/error: //' | sort -u); do
+    o=$(owner_of "$f"); [ -z "$o" ] && { echo "NOT committed: $f does not build and has no separate owner"; git reset -q; exit 1; }
+    owners="$owners $o"
+  done
+  for o in $(echo $owners | tr ' ' '\n' | sort -u); do
+    echo "leaving out the files of $o (in progress: do not build)"
+    git reset -q -- $(owner_files $o) 2>/dev/null
+  done
 fi
+git commit -qm "$1" && echo "committed: $1"
